@@ -246,3 +246,55 @@ func ZZH_C15_electorate_change() {
 	zz.Assert("C15.electorate.available-number-follows", int64(post.AvailableElectorateNum) == int64(availBefore)+delta)
 	zz.Assert("C15.electorate.tallies-untouched", post.ApproveNum == 0 && post.AgainstNum == 0 && post.InitialElectorateNum == 4)
 }
+
+// ZZH_C15_logout_submission: an available governance admin submits its own logout (the real
+// RoleManager.LogoutRole; the admin is `logouting` from then on and its votes are refused) while
+// another proposal is open or paused; then the logout is approved or rejected through the real
+// Manage. The open proposal's number of available electors is the number of its electors that are
+// available at each point: one less after the submission, back after a rejection, unchanged by
+// an approval - never more than its initial electorate.
+func ZZH_C15_logout_submission() {
+	w, cs := zzFullWorld()
+	w.audit = zz.Choice("audit", 2) == 1
+	zzPutGovAdmins(w, 4)
+	who := zzAdminIDs[2]
+	status := []ProposalStatus{PROPOSED, PAUSED}[zz.Choice("proposalStatus", 2)]
+	p := &Proposal{Id: "0xSponsor-7", Typ: AppchainMgr, Status: status, ObjId: "chQ", ObjLastStatus: governance.GovernanceAvailable,
+		BallotMap: map[string]pb.Ballot{}, EventType: governance.EventUpdate, StrategyType: SimpleMajority, StrategyExpression: repo.DefaultSimpleMajorityExpression,
+		InitialElectorateNum: 4, AvailableElectorateNum: 4, ThresholdApproveNum: 3}
+	for _, id := range zzAdminIDs {
+		p.ElectorateList = append(p.ElectorateList, &Role{ID: id, RoleType: GovernanceAdmin, Weight: 1, Status: governance.GovernanceAvailable})
+	}
+	w.putObj(zzGovAddr, ProposalKey(p.Id), *p)
+	idx := orderedmap.New()
+	idx.Set(p.Id, struct{}{})
+	w.putObj(zzGovAddr, ProposalStatusKey(string(status)), *idx)
+	_, err := zzTx(w, cs[zzRoleAddr], zzRoleAddr, who, "LogoutRole", []*pb.Arg{pb.String(who), pb.String("leaving")})
+	zz.Assert("C15.logout.submitted", err == nil)
+	if err != nil {
+		return
+	}
+	var r Role
+	w.getObj(zzRoleAddr, RoleKey(who), &r)
+	zz.Assert("C15.logout.admin-is-logouting", r.Status == governance.GovernanceLogouting)
+	// its vote is refused from now on ...
+	if status == PROPOSED {
+		_, verr := zzTx(w, cs[zzGovAddr], zzGovAddr, who, "Vote", []*pb.Arg{pb.String(p.Id), pb.String(BallotApprove), pb.String("r")})
+		zz.Assert("C15.logout.logouting-admin-cannot-vote", verr != nil)
+	}
+	// ... so it is not among the available electors of the open proposal any more
+	post, ok := zzProposalOf(w, p.Id)
+	zz.Assert("C15.logout.proposal-kept", ok && post.Status == status)
+	zz.Assert("C15.logout.available-electors-after-submission", post.AvailableElectorateNum == 3)
+	result := []string{string(APPROVED), string(REJECTED)}[zz.Choice("verdict", 2)]
+	_, merr := zzTx(w, cs[zzRoleAddr], zzRoleAddr, zzGovAddr, "Manage",
+		[]*pb.Arg{pb.String(string(governance.EventLogout)), pb.String(result), pb.String(string(governance.GovernanceAvailable)), pb.String(who), pb.Bytes(nil)})
+	zz.Assert("C15.logout.concluded", merr == nil)
+	post2, _ := zzProposalOf(w, p.Id)
+	want := uint64(3)
+	if result == string(REJECTED) {
+		want = 4
+	}
+	zz.Assert("C15.logout.available-electors-after-the-verdict", post2.AvailableElectorateNum == want)
+	zz.Assert("C15.logout.never-more-than-the-initial-electorate", post2.AvailableElectorateNum <= post2.InitialElectorateNum)
+}
